@@ -179,7 +179,7 @@ def r181(P, u, rep):
     fn = 'remove_backslash_newline'
     W = '%s:%d' % (T, u.fn(fn).line)
     rep.rule('R18.1', 'remove_backslash_newline conserves newlines: per generic loop iteration, newlines consumed = newlines written + change of the pending counter; '
-             'the pending newlines are flushed completely at every real newline and after the loop; a byte keeps its physical line', floor=8)
+             'the pending newlines are flushed completely at every real newline and after the loop; a byte keeps its physical line', floor=14)
     it = CutInterp(P, u, {'assume': _assume_counters})
     paths = it.explore(fn, lambda ctx: [Sym('P', 'char *')])
     base = '%s:%s' % (T, fn)
@@ -238,9 +238,6 @@ def r181(P, u, rep):
                        'the bytes stored in an iteration do not exactly fill the range the write cursor advances over (a stored byte is overwritten later or a stale byte is kept)', where=W, facts=facts)
             # complete flush at a real newline
             wn = pinned(ctx, wnl)
-            if wn is None:
-                if not (isinstance(wnl, int)):
-                    pass
             if (wn is not None and wn >= 1) or (wn is None and (lower_bound(ctx, wnl) or 0) >= 1):
                 seen_nl = True
                 rep.ob('R18.1', base + ':flush-complete-at-newline', pinned(ctx, n1) == 0,
@@ -346,7 +343,7 @@ def r182(P, u, rep):
     W = '%s:%d' % (T, u.fn(fn).line)
     base = '%s:%s' % (T, fn)
     rep.rule('R18.2', 'canonicalize_newline: CR LF becomes one LF, a lone CR becomes LF, every other byte is copied, the result is terminated; '
-             'it runs before remove_backslash_newline on the buffer that is tokenised', floor=6)
+             'it runs before remove_backslash_newline on the buffer that is tokenised', floor=9)
     it = CutInterp(P, u, {'assume': _assume_counters})
     paths = it.explore(fn, lambda ctx: [Sym('P', 'char *')])
     seen = set()
@@ -434,21 +431,14 @@ def r182(P, u, rep):
 
 
 # ------------------------------------------------------------------------------------------
-def _count_paths(P, u, rep, rule, fn, paths, counter_entry, want_stamp):
-    """paths of a loop that walks a pointer over the file contents and counts newlines.
-    checks the per-byte law; returns decoded list"""
-    pass
-
-
 def r183(P, u, rep):
     fn = 'add_line_numbers'
     W = '%s:%d' % (T, u.fn(fn).line)
     base = '%s:%s' % (T, fn)
     rep.rule('R18.3', 'add_line_numbers: starting at line 1 at the first byte of the file, every byte up to and including the terminating NUL is visited once; '
              'a token whose loc is the visited byte is stamped with the current count and the token cursor advances; the count grows by one exactly at a newline; '
-             'tokenize() calls it on the complete list including the EOF token; error_at counts the same way', floor=10)
+             'tokenize() calls it on the complete list including the EOF token; error_at counts the same way', floor=14)
     it = CutInterp(P, u, {'assume': None, 'track_stores': True})
-    tok0 = Obj('Token', lazy=True, label='tok')
     paths = it.explore(fn, lambda ctx: [Obj('Token', lazy=True, label='tok')])
     n_it = n_exit = n_stamp = 0
     for ctx, out in paths:
@@ -513,7 +503,8 @@ def r183(P, u, rep):
             nxt = tobj.fields.get('next') if isinstance(tobj, Obj) else None
             oka = nxt is not None and isinstance(tend, View) and isinstance(nxt, View) and tend.cell is nxt.cell
             if ie is not None:
-              rep.ob('R18.3', base + ':token-cursor-advances', bool(oka), 'after stamping a token the token cursor does not move to its successor: later tokens are never stamped', where=W, facts=facts)
+                rep.ob('R18.3', base + ':token-cursor-advances', bool(oka),
+                       'after stamping a token the token cursor does not move to its successor: later tokens are never stamped', where=W, facts=facts)
         else:
             rep.ob('R18.3', base + ':no-stamp-elsewhere', not stamps, 'a token is stamped although the scan pointer is not at its loc', where=W, facts=facts)
         if state is not None:
